@@ -138,7 +138,8 @@ def OPS():
     """name -> (mutates, fn(c, x, model, pool) -> new x) ; fn applies to both object and model and judges itself"""
     return ['append', 'append_multi', 'append_other', 'extend_multi', 'extend_single', 'extend_other', 'insert0', 'insert_neg',
             'insert_far', 'insert_other', 'set_other', 'pop', 'pop0', 'pop_far', 'del0', 'del_neg', 'del_far', 'set0', 'set_neg', 'set_far', 'set_multi',
-            'reverse', 'clear', 'copy', 'append_empty', 'insert_empty', 'set_empty', 'extend_empty', 'insert_multi']
+            'reverse', 'clear', 'copy', 'append_empty', 'insert_empty', 'set_empty', 'extend_empty', 'insert_multi',
+            'setslice_single', 'setslice_multi', 'setslice_step']
 
 
 MUTATORS = set(OPS()) - {'copy'}
@@ -279,6 +280,33 @@ def apply_op(ctx, c, x, model, name, pool, k, sig, what):
     elif name == 'insert_multi':
         y = from_list(c, [a, b])
         expect_arg_error(lambda: x.insert(0, y), 'insert(multi-valued)')
+    elif name in ('setslice_single', 'setslice_multi', 'setslice_step'):
+        # x[a:b] = Y: either what a list does with Y's values, or a refusal that leaves the object as it was
+        # (the docstring says slices are not supported); never a half-way state
+        y = from_list(c, [a] if name == 'setslice_single' else [a, b])
+        vals = [np.array(v, copy=True) for v in y.data]
+        sl = slice(0, 2) if name != 'setslice_step' else slice(0, None, 2)
+        m2 = list(model)
+        try:
+            m2[sl] = vals
+            werr = None
+        except ValueError as e:
+            werr = e
+        try:
+            x[sl] = y
+            gerr = None
+        except Exception as e:
+            gerr = e
+        unchanged = len(x.data) == len(before) and all(isinstance(v, np.ndarray) and eq_arr(c, v, m) for v, m in zip(x.data, before))
+        aslist = werr is None and len(x.data) == len(m2) and all(isinstance(v, np.ndarray) and eq_arr(c, v, m) for v, m in zip(x.data, m2))
+        ok = (gerr is not None and unchanged) or (gerr is None and aslist)
+        ctx.judge('errors', ok, dict(sig, kind='slice_assignment_corrupts', op=name, got=type(gerr).__name__ if gerr else 'accepted'),
+                  lambda: '%s: x[%s] = <%d value(s)>: neither the list result nor a clean refusal; %s; data now %s' % (
+                      what(), sl, len(vals), repr(gerr) if gerr else 'no exception', core.short(x.data, 300)))
+        if gerr is None and aslist:
+            model[:] = m2
+        elif not unchanged:
+            model[:] = [np.array(v, copy=True) if isinstance(v, np.ndarray) else v for v in x.data]   # resynchronise after the reported corruption
     elif name == 'reverse':
         both(lambda: x.reverse(), lambda m: m.reverse(), 'reverse')
     elif name == 'clear':
@@ -507,5 +535,10 @@ def run(ctx):
         alphabet = [o for o in ops if not (c in EXTRA and o == 'copy')]
         L = int(rng.integers(4, 61))
         seq = [alphabet[rng.integers(len(alphabet))] for _ in range(L)]
-        drive(RUNNERS, ctx, 'history', dict(cls=c, start=int(rng.integers(0, 5)), ops=seq, pool=pools[c]))
+        pool = pools[c]
+        if c in ('SO2', 'SE2', 'SO3', 'SE3') and rng.random() < 0.3:
+            # members that have drifted by ~1e-12 (hundreds of unnormalised products): still valid to 1e-9, and a list does not care
+            d = pool[0].shape[0]
+            pool = [a + 1e-12 * rng.normal(size=a.shape) * (np.arange(d)[:, None] < (d if c in ('SO2', 'SO3') else d - 1)) for a in pool]
+        drive(RUNNERS, ctx, 'history', dict(cls=c, start=int(rng.integers(0, 5)), ops=seq, pool=pool))
     ctx.extra['configurations_enumerated'] = i
